@@ -286,9 +286,11 @@ func report(w *World, sum *propSummary, cfg RunConfig, verif string, seed int, w
 		}
 		fmt.Printf("VIOLATION property=%s replay=%s obligation=%s%s\n", sum.ID, path, o.Name, suffix)
 	}
+	nBoundedViol := 0
 	for _, b := range sum.Bounded {
 		if !b.Passed && findings.match(sum.ID, "bounded:"+b.Name) == nil {
 			exit = 1
+			nBoundedViol++
 			path := filepath.Join(replayDir, "bounded_"+mangleIdent(b.Name)+".txt")
 			os.WriteFile(path, []byte(b.Detail), 0o644)
 			fmt.Printf("VIOLATION property=%s replay=%s obligation=bounded:%s\n", sum.ID, path, b.Name)
@@ -340,13 +342,13 @@ func report(w *World, sum *propSummary, cfg RunConfig, verif string, seed int, w
 		"coverage":    cov,
 		"assumptions": assumptions,
 		"wall_s":      round3(wall.Seconds()),
-		"violations":  len(violations),
+		"violations":  len(violations) + nBoundedViol,
 	}
 	os.MkdirAll(filepath.Join(verif, "evidence"), 0o755)
 	data, _ := json.MarshalIndent(ev, "", " ")
 	os.WriteFile(filepath.Join(verif, "evidence", sum.ID+".json"), data, 0o644)
 	fmt.Printf("property=%s tier=%s obligations=%d discharged=%d cover=%d/%d bounded=%d known=%d violations=%d wall=%.1fs\n",
-		sum.ID, cfg.Tier, nObl, nDis, nCoverOK, nCover, len(sum.Bounded), len(known), len(violations), wall.Seconds())
+		sum.ID, cfg.Tier, nObl, nDis, nCoverOK, nCover, len(sum.Bounded), len(known), len(violations)+nBoundedViol, wall.Seconds())
 	return exit
 }
 
